@@ -57,6 +57,44 @@ func init() {
 			verr, ok := sc.offer(t, nil, offerOpt{})
 			w.expect(w.propAmong("C08", "C07"), "K3-v1-in-block-proof-at-window-start", verr, ok, true, fmt.Sprintf("v1 contract formed with window start %d and proven in the same block (height %d)", sc.child(), sc.child()))
 		}
+		// two contracts proven by one transaction: a whole leaf of the first file, then
+		// the only, partial leaf of the second (and the other way round) - each proof
+		// is judged on its own data
+		{
+			small := make([]byte, w.tape.Range(1, 63))
+			for i := range small {
+				small[i] = byte(i*11 + 5)
+			}
+			files := [][]byte{data, small}
+			valid := types.Siacoins(2)
+			_, ai := w.ownerOf(funder.SiacoinOutput.Address)
+			form := types.Transaction{SiacoinInputs: []types.SiacoinInput{{ParentID: funder.ID, UnlockConditions: *ai.uc}}}
+			total := types.ZeroCurrency
+			for _, f := range files {
+				fc := types.FileContract{Filesize: uint64(len(f)), FileMerkleRoot: fileRoot(f), WindowStart: sc.child(), WindowEnd: sc.child() + 3, UnlockHash: c.uc().UnlockHash(),
+					ValidProofOutputs:  []types.SiacoinOutput{{Value: valid, Address: renter.addrs[0].addr}},
+					MissedProofOutputs: []types.SiacoinOutput{{Value: valid, Address: types.VoidAddress}}}
+				fc.Payout = preTaxPayout(sc.s, fc, valid)
+				total = total.Add(fc.Payout)
+				form.FileContracts = append(form.FileContracts, fc)
+			}
+			if !form.FileContracts[0].Payout.IsZero() && !form.FileContracts[1].Payout.IsZero() && funder.SiacoinOutput.Value.Cmp(total) >= 0 {
+				if ch := funder.SiacoinOutput.Value.Sub(total); !ch.IsZero() {
+					form.SiacoinOutputs = []types.SiacoinOutput{{Value: ch, Address: renter.addrs[0].addr}}
+				}
+				w.signAllV1(sc.s, &form)
+				var sps []types.StorageProof
+				for i, f := range files {
+					id := form.FileContractID(i)
+					idx := ref.ChallengeIndex(uint64(len(f)), sc.s.Index.ID, id)
+					sps = append(sps, types.StorageProof{ParentID: id, Leaf: ref.LeafSegment(f, int(idx)), Proof: ref.TreePath(ref.FileLeaves(f), int(idx))})
+				}
+				verr, ok := sc.offer([]types.Transaction{form, {StorageProofs: []types.StorageProof{sps[0], sps[1]}}}, nil, offerOpt{})
+				w.expect("C07", "K3-v1-two-proofs-whole-then-partial-leaf", verr, ok, true, fmt.Sprintf("one transaction proves a %d-byte file and then a %d-byte file (a partial leaf), both honestly", len(data), len(small)))
+				verr, ok = sc.offer([]types.Transaction{form, {StorageProofs: []types.StorageProof{sps[1], sps[0]}}}, nil, offerOpt{})
+				w.expect("C07", "K3-v1-two-proofs-partial-then-whole-leaf", verr, ok, true, fmt.Sprintf("one transaction proves a %d-byte file (a partial leaf) and then a %d-byte file, both honestly", len(small), len(data)))
+			}
+		}
 		if t, ok := build(sc.child() + 1); ok {
 			verr, ok := sc.offer(t, nil, offerOpt{})
 			w.expect(w.propAmong("C08", "C07"), "K3-v1-in-block-proof-before-window-start", verr, ok, false, fmt.Sprintf("v1 contract formed with window start %d and proven in the same block (height %d): the block at height %d does not exist yet", sc.child()+1, sc.child(), sc.child()))
